@@ -608,6 +608,8 @@ type Machine struct {
 	// Relaxed: the root is a crash image: left-over temp/orphan directories and the failures they cause
 	// (rename onto an orphan directory) are expected until the first Cleanup.
 	Relaxed bool
+	// ConcurrentCleanup: set by cmd/snapcrash while a Cleanup runs in another goroutine next to the observed call.
+	ConcurrentCleanup bool
 	// UpdatedIDs: ids of snapshots whose labels were replaced by Update (their stored labels legitimately differ
 	// from the labels they were created with); UpdatedUnknown: an Update hit a snapshot whose id is unknown.
 	UpdatedIDs     map[int]bool
@@ -883,7 +885,9 @@ func (m *Machine) Do(o Op) Out {
 					break
 				}
 			}
-			if last == nil || last.Ev != "unmount" {
+			if m.ConcurrentCleanup && (last == nil || last.Ev != "unmount") {
+				// events of two goroutines are interleaved in one list: adjacency cannot be attributed
+			} else if last == nil || last.Ev != "unmount" {
 				m.FS.problem("directory removal without a preceding backend Unmount call")
 			} else if point == "cleanupdir.removed" {
 				m.FS.Events = append(m.FS.Events, Event{Ev: "rmdir", D: last.D})
@@ -1031,6 +1035,14 @@ func (m *Machine) oracle(o Op, res Res, evs []Event, before map[int]WalkEnt, dir
 			if id, ok := m.idOf[o.Key]; ok {
 				delete(m.idOf, o.Key)
 				m.idOf[o.Name] = id
+				// an explicit Commit replaces the labels (storage.CommitActive: "do not inherit"): from here on the
+				// stored labels legitimately differ from those a backend Mount of this id saw at creation
+				if m.UpdatedIDs == nil {
+					m.UpdatedIDs = map[int]bool{}
+				}
+				m.UpdatedIDs[id] = true
+			} else {
+				m.UpdatedUnknown = true
 			}
 		}
 	case "remove":
@@ -1249,6 +1261,9 @@ func (m *Machine) oracle(o Op, res Res, evs []Event, before map[int]WalkEnt, dir
 
 	// --- clause 3: Unmount precedes every directory removal (events), see also OnLiveUnmount ---
 	for i, e := range evs {
+		if m.ConcurrentCleanup {
+			break // merged event list of two goroutines (see above)
+		}
 		if e.Ev == "rmdir" {
 			if i == 0 || evs[i-1].Ev != "unmount" || evs[i-1].D != e.D {
 				m.problem("", "directory %v removed without the backend Unmount call directly before", e.D)
@@ -1256,6 +1271,12 @@ func (m *Machine) oracle(o Op, res Res, evs []Event, before map[int]WalkEnt, dir
 		}
 	}
 	for _, d := range dirsBefore {
+		if m.ConcurrentCleanup {
+			// another goroutine runs Cleanup while this call is observed: directories of removed snapshots go away
+			// through ITS cleanupSnapshotDirectory, whose markers cannot be attributed to this call. What the property
+			// demands of this call's own snapshots is still checked below (a live snapshot keeps its directory).
+			break
+		}
 		if !contains(v.Dirs, d) {
 			seen := false
 			for _, e := range evs {
